@@ -3,3 +3,6 @@ pub mod c09;
 pub mod c01;
 pub mod c13;
 pub mod c18;
+pub mod c14;
+pub mod c15;
+pub mod c16;
